@@ -15,7 +15,7 @@ from .model import act_of
 
 FLAT_ENCODINGS = ["int", "int64", "int32", "uint16", "int16", "action"]
 PARAM_ENCODINGS = ["list", "tuple", "ndarray", "ndarray32", "ndarray_u8",
-                   "action"]
+                   "action", "buffer"]
 
 
 class SutError(Exception):
@@ -128,6 +128,13 @@ class ActionTable:
                                 else np.int64)
             if enc == "action":
                 return self.env.action_space.get_action(list(plain))
+            if enc == "buffer":
+                # one caller-owned array reused (mutated in place) for every
+                # action, as an agent with a preallocated buffer would do
+                if getattr(self, "_buffer", None) is None:
+                    self._buffer = np.zeros(len(plain), dtype=np.int64)
+                self._buffer[:] = plain
+                return self._buffer
         raise ValueError(enc)
 
 
@@ -213,6 +220,35 @@ class EnvSim:
         self.shadow_spec = shadow_spec
         if shadow_spec is not None and scripted:
             self._make_shadow(shadow_spec)
+
+    def _exec_burst(self, op):
+        """Many look-ahead generative steps in a row on the current state;
+        the environment must be untouched afterwards."""
+        env = self.env
+        plain, obj = self.resolve(op)
+        if obj is None:
+            return
+        x = plain if self.table.flat else list(plain)
+        self.counters.hit("fault.background_gstep_burst")
+        before = (env.current_state.tensor.tobytes(),
+                  env.last_obs.tensor.tobytes(), env.steps,
+                  id(env.current_state), id(env.last_obs))
+        for i in range(int(op.get("n", 600))):
+            self.rnd.push([0.5, 0.5])
+            try:
+                env.generative_step(env.current_state, x)
+            except Exception as e:
+                raise SutError("generative_step", e)
+        after = (env.current_state.tensor.tobytes(),
+                 env.last_obs.tensor.tobytes(), env.steps,
+                 id(env.current_state), id(env.last_obs))
+        if before != after and "C13" in self.props:
+            names = ("current state", "last observation", "step counter",
+                     "current state object", "last observation object")
+            raise Violation("C13.pure", "a burst of generative steps changed"
+                            " the environment", changed=[
+                                n for n, a, b in zip(names, before, after)
+                                if a != b], n=op.get("n", 600))
 
     def _reconstruct(self):
         """Restart analogue: a new environment is built from the same
@@ -361,6 +397,8 @@ class EnvSim:
             self._exec_gstep(op)
         elif kind == "query":
             self.oracle.query(op)
+        elif kind == "burst":
+            self._exec_burst(op)
         elif kind == "reconstruct":
             self.counters.hit("fault.restart.reconstruct")
             self._reconstruct()
@@ -375,6 +413,15 @@ class EnvSim:
                     self.shadow.exec_op({"op": "reset"})
         else:
             raise ValueError(kind)
+
+    def _custom_root(self, obj):
+        import copy
+        from nasim.envs.utils import AccessLevel
+        o = copy.copy(obj)
+        o.req_access = AccessLevel.ROOT
+        o._dsim_intended = None
+        o._dsim_custom = True
+        return o
 
     def _draws_for(self, op):
         return [float.fromhex(h) for h in op["u"]]
@@ -443,7 +490,12 @@ class EnvSim:
                 self.counters.hit("replay.unresolved_action")
                 return
             enc = op.get("enc", "int" if self.table.flat else "list")
-            x = self.table.encode(plain, enc)
+            if enc == "custom_root":
+                # a self-built Action object (allowed by step) that needs ROOT
+                # on the pivot / target instead of USER
+                x = obj = self._custom_root(obj)
+            else:
+                x = self.table.encode(plain, enc)
             self.counters.hit("fault.encoding." + enc)
         if self.episode_over:
             self.counters.hit("fault.post_terminal")
@@ -475,7 +527,11 @@ class EnvSim:
                 op = self._gen_reset(wl)
             else:
                 r = wl.random()
-                if wl.random() < swarm.p_reconstruct:
+                if "C13" in self.props and wl.random() < 0.004:
+                    k = wl.choice(self.table.keys)
+                    op = {"op": "burst", "a": [k[0], list(k[1]), k[2]],
+                          "n": 600}
+                elif wl.random() < swarm.p_reconstruct:
                     op = {"op": "reconstruct"}
                 elif r < swarm.p_reset:
                     op = self._gen_reset(wl)
@@ -500,7 +556,9 @@ class EnvSim:
         arguments (they must not change what reset does)."""
         r = wl.random()
         if r < 0.15:
-            return {"op": "reset", "kw": {"seed": wl.randint(0, 2 ** 31 - 1)}}
+            return {"op": "reset", "kw": {"seed": wl.choice(
+                [wl.randint(0, 2 ** 31 - 1), 0, 2 ** 32, 2 ** 32 + 17,
+                 2 ** 63 - 1])}}
         if r < 0.25:
             return {"op": "reset", "kw": {"options": {}}}
         if r < 0.30:
@@ -614,6 +672,11 @@ class EnvSim:
         status = read_status(self.env.current_state, self.cfg)
         k = self._pick_action(wl, swarm, status)
         a = self._act_of_key(k)
+        if self.props & {"C01", "C02"} and wl.random() < 0.05 and \
+                k[0] != "noop":
+            return {"op": "step", "a": [k[0], list(k[1]), k[2]],
+                    "enc": "custom_root",
+                    "u": self._gen_draws(fl, swarm, a)}
         if self.table.flat:
             enc = wl.choice(FLAT_ENCODINGS) if swarm.exotic_enc else "int"
         else:
